@@ -205,6 +205,11 @@ class ExprMixin:
         raise Unmodelled("operator %s at %s" % (type(op).__name__, frame.loc(node)))
 
     def as_items(self, v, frame, node):
+        if isinstance(v, ListV) and v.kind == "range":
+            lo, hi = v.lo.as_int(), v.hi.as_int()
+            if lo is not None and hi is not None and 0 <= hi - lo <= 16:
+                return [Num(Rat.const(i)) for i in range(lo, hi)]
+            return None
         if isinstance(v, TupV):
             return v.items
         if isinstance(v, ListV) and v.kind == "lit":
